@@ -107,12 +107,7 @@ func (session *ServerCommandSession) FeedSdp(b []byte) {
 //
 // 使用RTSP TCP命令连接，向对端发送RTP数据
 func (session *ServerCommandSession) WriteInterleavedPacket(packet []byte, channel int) error {
-	if session.isWebSocket {
-		respLen := len(packInterleaved(channel, packet))
-		session.writeWsFrameHeader(respLen)
-	}
-	_, err := session.conn.Write(packInterleaved(channel, packet))
-	return err
+	return session.write(packInterleaved(channel, packet))
 }
 
 func (session *ServerCommandSession) RemoteAddr() string {
@@ -255,12 +250,7 @@ Loop:
 func (session *ServerCommandSession) handleOptions(requestCtx nazahttp.HttpReqMsgCtx) error {
 	Log.Infof("[%s] < R OPTIONS", session.uniqueKey)
 	resp := PackResponseOptions(requestCtx.Headers.Get(HeaderCSeq))
-	if session.isWebSocket {
-		respLen := len([]byte(resp))
-		session.writeWsFrameHeader(respLen)
-	}
-	_, err := session.conn.Write([]byte(resp))
-	return err
+	return session.write([]byte(resp))
 }
 
 func (session *ServerCommandSession) handleAnnounce(requestCtx nazahttp.HttpReqMsgCtx) error {
@@ -304,12 +294,7 @@ func (session *ServerCommandSession) handleDescribe(requestCtx nazahttp.HttpReqM
 		}
 
 		if authresp != "" {
-			if session.isWebSocket {
-				respLen := len([]byte(authresp))
-				session.writeWsFrameHeader(respLen)
-			}
-			_, err := session.conn.Write([]byte(authresp))
-			return err
+			return session.write([]byte(authresp))
 		}
 	}
 
@@ -342,12 +327,7 @@ func (session *ServerCommandSession) feedSdp(rawSdp []byte) error {
 	session.subSession.InitWithSdp(sdpCtx)
 
 	resp := PackResponseDescribe(session.describeSeq, string(rawSdp))
-	if session.isWebSocket {
-		respLen := len([]byte(resp))
-		session.writeWsFrameHeader(respLen)
-	}
-	_, err := session.conn.Write([]byte(resp))
-	return err
+	return session.write([]byte(resp))
 }
 
 func (session *ServerCommandSession) handleAuthorized(requestCtx nazahttp.HttpReqMsgCtx) (string, error) {
@@ -416,12 +396,7 @@ func (session *ServerCommandSession) handleSetup(requestCtx nazahttp.HttpReqMsgC
 		}
 
 		resp := PackResponseSetup(requestCtx.Headers.Get(HeaderCSeq), htv)
-		if session.isWebSocket {
-			respLen := len([]byte(resp))
-			session.writeWsFrameHeader(respLen)
-		}
-		_, err = session.conn.Write([]byte(resp))
-		return err
+		return session.write([]byte(resp))
 	}
 
 	rRtpPort, rRtcpPort, err := parseClientPort(requestCtx.Headers.Get(HeaderTransport))
@@ -455,12 +430,7 @@ func (session *ServerCommandSession) handleSetup(requestCtx nazahttp.HttpReqMsgC
 	}
 
 	resp := PackResponseSetup(requestCtx.Headers.Get(HeaderCSeq), htv)
-	if session.isWebSocket {
-		respLen := len([]byte(resp))
-		session.writeWsFrameHeader(respLen)
-	}
-	_, err = session.conn.Write([]byte(resp))
-	return err
+	return session.write([]byte(resp))
 }
 
 func (session *ServerCommandSession) handleRecord(requestCtx nazahttp.HttpReqMsgCtx) error {
@@ -486,34 +456,32 @@ func (session *ServerCommandSession) handlePlay(requestCtx nazahttp.HttpReqMsgCt
 		return err
 	}
 	resp := PackResponsePlay(requestCtx.Headers.Get(HeaderCSeq))
-	if session.isWebSocket {
-		respLen := len([]byte(resp))
-		session.writeWsFrameHeader(respLen)
-	}
-	_, err := session.conn.Write([]byte(resp))
-	return err
+	return session.write([]byte(resp))
 }
 
 func (session *ServerCommandSession) handleTeardown(requestCtx nazahttp.HttpReqMsgCtx) error {
 	Log.Infof("[%s] < R TEARDOWN", session.uniqueKey)
 	resp := PackResponseTeardown(requestCtx.Headers.Get(HeaderCSeq))
-	if session.isWebSocket {
-		respLen := len([]byte(resp))
-		session.writeWsFrameHeader(respLen)
-	}
-	_, err := session.conn.Write([]byte(resp))
-	return err
+	return session.write([]byte(resp))
 }
 
-func (session *ServerCommandSession) writeWsFrameHeader(respLen int) {
-	wsHeader := base.WsHeader{
-		Fin:           true,
-		Rsv1:          false,
-		Rsv2:          false,
-		Rsv3:          false,
-		Opcode:        base.Wso_Binary,
-		PayloadLength: uint64(respLen),
-		Masked:        false,
+// write 发送一个完整的数据单元（一个rtsp消息或一个interleaved包）
+//
+// 注意，websocket时，帧头和负载作为一个整体写入发送队列，避免队列满时只写入了其中一部分，破坏对端的帧边界
+func (session *ServerCommandSession) write(b []byte) error {
+	if session.isWebSocket {
+		wsHeader := base.WsHeader{
+			Fin:           true,
+			Rsv1:          false,
+			Rsv2:          false,
+			Rsv3:          false,
+			Opcode:        base.Wso_Binary,
+			PayloadLength: uint64(len(b)),
+			Masked:        false,
+		}
+		_, err := session.conn.Writev(net.Buffers{base.MakeWsFrameHeader(wsHeader), b})
+		return err
 	}
-	session.conn.Write(base.MakeWsFrameHeader(wsHeader))
+	_, err := session.conn.Write(b)
+	return err
 }
